@@ -989,13 +989,23 @@ static void gen_expr(Node *node) {
     return;
   case ND_COND: {
     int c = count();
+    // If one of the arms is void, the expression is void as well and
+    // the other arm, whatever its type, is evaluated only for its
+    // side effects.
+    bool novalue = node->ty->kind == TY_VOID;
     gen_expr(node->cond);
     cmp_zero(node->cond->ty);
     println("  je .L.else.%d", c);
-    gen_expr(node->then);
+    if (novalue)
+      gen_discard(node->then);
+    else
+      gen_expr(node->then);
     println("  jmp .L.end.%d", c);
     println(".L.else.%d:", c);
-    gen_expr(node->els);
+    if (novalue)
+      gen_discard(node->els);
+    else
+      gen_expr(node->els);
     println(".L.end.%d:", c);
     return;
   }
